@@ -129,3 +129,5 @@ def run(ctx):
     n = haversine.check_all(ctx, crate)
     ctx.floor("haversine-call-sites", n, 4)
     ctx.not_decided("the no-miss claim itself: that the start cells cover the cone, that the per-depth distance bounds are upper bounds, haversine rounding (float geometry)")
+    from rules import controls
+    controls.haversine_controls(ctx)
